@@ -178,6 +178,11 @@ Theorem C13_undefined_signal_data_rejected : forall w sig o, df_is_defd (dfw_sig
 Proof. exact undefined_signal_data_rejected. Qed.
 Print Assumptions C13_undefined_signal_data_rejected.
 
+(* no modelled writer call crashes, whatever the arguments and the state (the model has explicit fault results) *)
+Theorem C13_step_never_faults : forall w o, snd (df_step w o) <> DfFault.
+Proof. exact step_never_faults. Qed.
+Print Assumptions C13_step_never_faults.
+
 (* ---- 5. user data ---- *)
 Theorem C13_user_data_roundtrip : forall j p, df_prog_ok p -> df_ud_valid_types p ->
   exists r, df_scan j (dfw_log (fst (df_run_prog p))) = DfOk r /\
